@@ -176,6 +176,11 @@ pub fn check_main(prop_id: &str, tier: Tier, seed: u64) -> i32 {
     }
     let mut violations: BTreeMap<String, FoundViolation> = BTreeMap::new();
     for f in found {
+        if f.prop == "HARNESS" {
+            eprintln!("HARNESS ERROR: {} :: {} (replay {})", f.key, f.detail.chars().take(300).collect::<String>(), f.replay);
+            harness_error = true;
+            continue;
+        }
         if known_keys.contains_key(&f.key) {
             known_seen.insert(f.key.clone());
         } else {
